@@ -20,6 +20,7 @@ import (
 	"github.com/ovrclk/akash/pubsub"
 	atypes "github.com/ovrclk/akash/types"
 	"github.com/ovrclk/akash/util/runner"
+	"github.com/ovrclk/akash/util/veriftrace"
 	mtypes "github.com/ovrclk/akash/x/market/types"
 )
 
@@ -360,6 +361,7 @@ func (is *inventoryService) run(reservations []*reservation) {
 
 loop:
 	for {
+		veriftrace.Emit("inventory", "", "idle", "reservations", reservations, "ports", is.availableExternalPorts, "accepting", reserveChLocal != nil, "fetching", runch != nil, "inventory", inventory)
 		select {
 		case err := <-is.lc.ShutdownRequest():
 			is.lc.ShutdownInitiated(err)
@@ -368,6 +370,7 @@ loop:
 		case ev := <-is.sub.Events():
 			switch ev := ev.(type) { // nolint: gocritic
 			case event.ClusterDeployment:
+				veriftrace.Emit("inventory", "", "cluster-deployment", "status", string(ev.Status))
 				// mark reservation allocated if deployment successful
 				for _, res := range reservations {
 					if !res.OrderID().Equals(ev.LeaseID.OrderID()) {
@@ -400,6 +403,7 @@ loop:
 			}
 
 		case req := <-reserveChLocal:
+			veriftrace.Emit("inventory", "", "reserve")
 			// convert the resources to the commmitted amount
 			resourcesToCommit := is.committedResources(req.resources)
 			// create new registration if capacity available
@@ -419,6 +423,7 @@ loop:
 			req.ch <- inventoryResponse{err: ErrInsufficientCapacity}
 
 		case req := <-is.lookupch:
+			veriftrace.Emit("inventory", "", "lookup")
 			// lookup registration
 
 			for _, res := range reservations {
@@ -437,6 +442,7 @@ loop:
 			req.ch <- inventoryResponse{err: errReservationNotFound}
 
 		case req := <-is.unreservech:
+			veriftrace.Emit("inventory", "", "unreserve")
 			is.log.Debug("unreserving capacity", "order", req.order)
 			// remove reservation
 
@@ -461,10 +467,12 @@ loop:
 			req.ch <- inventoryResponse{err: errReservationNotFound}
 
 		case responseCh := <-is.statusch:
+			veriftrace.Emit("inventory", "", "status")
 			responseCh <- is.getStatus(inventory, reservations)
 			inventoryRequestsCounter.WithLabelValues("status", "success").Inc()
 
 		case <-t.C:
+			veriftrace.Emit("inventory", "", "timer")
 			// run cluster inventory check
 
 			t.Stop()
@@ -472,6 +480,7 @@ loop:
 			runch = is.runCheck(ctx)
 
 		case res := <-runch:
+			veriftrace.Emit("inventory", "", "inventory-result", "err", res.Error() != nil)
 			// inventory check returned
 
 			runch = nil
